@@ -6,6 +6,21 @@ BASELINE = ("cd /repo && cargo nextest run --workspace --no-fail-fast --test-thr
             "|| cargo test --workspace --no-fail-fast --offline")
 
 CHECKS = {
+    "C03": dict(
+        category="exploration",
+        text=("Public-API part: chains of all six presets are run on generated densities (including walls that cause divergences) with a "
+              "density wrapper that logs every evaluated position per draw() call; each returned draw must be bit-identical to the previous "
+              "position or to one of the first 2^depth-1 states integrated in that trajectory, its logp/gradient must be the logged values, "
+              "and depth / n_steps / index / maxdepth flag / energy error must satisfy the stated inequalities. Hook part: nuts::draw is "
+              "executed with a recording collector and an independent reference tree builder replays the doubling, recomputing the U-turn "
+              "criterion for every balanced block: the trajectory must stop exactly at the first block that turns, at a divergence or at "
+              "maxdepth, with the right flags, and the returned state must be an unchanged state of the accepted tree."),
+        design_ref="DESIGN.md section 3, C03",
+        note=("The audit's criterion is the three-test criterion named in the property anchors. U-turn products within 1e-9 of zero are "
+              "skipped. Start points with non-finite density or zero gradient are outside the domain. Histories that need more than 400k "
+              "density evaluations (MCLMC retry storms) are skipped and counted. extra_doublings=0 and check_turning=true throughout."),
+        technique="proptest-generated chain histories checked against an evaluation log; reference tree builder replaying recorded leapfrogs",
+    ),
     "C01": dict(
         category="exploration",
         text=("The real nuts::draw is executed (through cfg-guarded hooks) with a scripted momentum and a scripted RNG; the complete "
